@@ -4,6 +4,7 @@
                                                                | ok n=<emitted> res=<reserve> | <case> ...
    case: set=<i> g=<so>.<eo>,... cut=<n>  |  oob site=<s> cut=<n>  |  nofuel cut=<n>
    U ...  the same with an (in practice) unbounded recursion depth: the reference for priority
+   C <pat,pat,...>   ->  compile only, whatever the size (length computed in Z, nothing emitted): rej | ok n= res=
    T <pat,pat,...>   ->  the parse tree of the combined pattern as an S-expression (for the oracle) *)
 let pr = Printf.printf
 let maxres = match Sys.getenv_opt "PROBE_RE_MAXRES" with Some s -> int_of_string s | None -> 200000
@@ -32,6 +33,17 @@ let do_tree w =
   | Ok (None, _) -> pr "rej\n"
   | OOB s -> pr "oob site=%s\n" (site_name s)
   | NoFuel -> pr "nofuel\n"
+
+let do_comp w =
+  match parse_pat (rset_pattern (pats_of w)) with
+  | OOB s -> pr "oob site=%s\n" (site_name s)
+  | NoFuel -> pr "nofuel\n"
+  | Ok (None, _) -> pr "rej\n"
+  | Ok (Some t, _) ->
+    let res = int_of_z (count t) + 3 in
+    let ninst = int_of_z nINST in
+    if ninst >= 0 && res >= ninst then pr "rej\n"
+    else pr "ok n=%d res=%d\n" (int_of_z (zlen t) + 3) res
 
 let do_rset depth flg nsub patw casew =
   let pats = pats_of patw in
@@ -74,5 +86,6 @@ let () =
      | ["R"; f; n; p; c] -> do_rset depth (int_of_string f) (int_of_string n) p c
      | ["U"; f; n; p; c] -> do_rset big_depth (int_of_string f) (int_of_string n) p c
      | ["T"; p] -> do_tree p
+     | ["C"; p] -> do_comp p
      | _ -> pr "?\n");
     flush stdout)
